@@ -326,12 +326,12 @@ def classes(case):
 
 SUBS = [
     Sub("constructed", check, gen=gen, nontrivial=nontrivial, classes=classes,
-        n={"quick": 500, "thorough": 6000},
+        n={"quick": 800, "thorough": 6000},
         essential=["rel:mutex", "rel:cardinal", "rel:other1", "multi-relations-parent", "typed",
                    "ctc:arithmetic", "ctc:aggregate"]),
     Sub("triples-n<=8", check, enum=enum_triples, nontrivial=nontrivial, classes=classes, exhaustive=True),
     Sub("reader-sourced", check, gen=lambda tier: reader_cases(), nontrivial=nontrivial, classes=classes,
-        n={"quick": 20, "thorough": 1000}, shards={"quick": 4, "thorough": 16}),
+        n={"quick": 20, "thorough": 600}, shards={"quick": 16, "thorough": 16}),
 ]
 
 MANIFEST = {
